@@ -228,6 +228,30 @@ def c_log_softmax(ctx, x):
   return IdxV(LOGP(POS, CLS), x.axes)
 
 
+SOFTP = z3.Function('softmax_f32', I, I, R)   # jax.nn.softmax(pred)[pos, cls] as computed in float32
+
+
+def c_softmax(ctx, x):
+  # library contract (float32): every entry is in [0, 1]; an entry more than ~87 (103 with subnormals) below the row
+  # maximum underflows to exactly 0 - the contract therefore does NOT promise > 0
+  ctx.tags['log_softmax_of'] = x
+  ctx.tags['softmax_terms'] = True
+  ctx.assume(z3.And(SOFTP(POS, CLS) >= 0, SOFTP(POS, CLS) <= 1))
+  return IdxV(SOFTP(POS, CLS), x.axes)
+
+
+def c_log(ctx, x):
+  v = as_idx(x)
+  t = v.num()
+  ctx.oblige('log.arg.positive', t > 0, kind='definedness',
+             detail='jnp.log of a value that can be 0 in float32 gives -inf (and nan after 0 * -inf): a softmax probability '
+                    'underflows to 0 when its logit lies ~87 below the row maximum, so log(softmax(x)) is not the finite '
+                    'log_softmax(x) = x - logsumexp(x) on extreme magnitudes')
+  if ctx.tags.get('softmax_terms') and z3.is_app(t) and t.decl().eq(SOFTP):
+    return IdxV(LOGP(POS, CLS), v.axes)     # over the reals log(softmax) = log_softmax
+  raise Unsupported('jnp.log of a general expression')
+
+
 def globals14():
   g = metric_globals()
   for mod in (g['jnp'], g['jax'].attrs['numpy']):
@@ -237,9 +261,11 @@ def globals14():
                      transpose=Handler(lambda ctx, x: x, 'jnp.transpose'),
                      array=Handler(lambda ctx, x, copy=None, dtype=None: x, 'jnp.array'),
                      maximum=Handler(lambda ctx, a, b: lift_idx(zmax, a, b), 'jnp.maximum'),
-                     where=Handler(lambda ctx, c, a, b: where_idx(c, a, b), 'jnp.where'))
+                     where=Handler(lambda ctx, c, a, b: where_idx(c, a, b), 'jnp.where'),
+                     log=Handler(c_log, 'jnp.log'))
   g['jax'].attrs['nn'] = Module('jax.nn', {'one_hot': Handler(c_one_hot, 'one_hot'),
-                                           'log_softmax': Handler(c_log_softmax, 'log_softmax')})
+                                           'log_softmax': Handler(c_log_softmax, 'log_softmax'),
+                                           'softmax': Handler(c_softmax, 'softmax')})
   g['util'] = SrcModule(U)
   return g
 
